@@ -28,11 +28,11 @@ ENTRY = {
                 "(StatsOf) row_group_might_match never drops a row group holding a row the predicate keeps, row_group_definitely_matches only fires when the predicate is TRUE on all "
                 "rows, and filtering after pruning equals filtering (C05_might_match_sound, C05_definite_sound, C05_prune_answer_invariant) - for every predicate of the fragment, "
                 "every number of row groups, integers exactly, strings byte-wise, floats under the stated no-NaN / no-negative-zero hypothesis; kernel-checked negation witnesses for the "
-                "unchanged tree's f64-rounded definite comparison, its i64-as-i32 narrowing, and for the necessity of the float hypothesis. Tied to the code by correspondence on real Parquet files.",
+                "f64-rounded definite comparison and the i64-as-i32 narrowing the tree had before fix e356a0a, and for the necessity of the float hypothesis. Tied to the code by correspondence on real Parquet files.",
         "design_ref": "DESIGN.md §6 C05",
         "level_note": "Trusted: Lean kernel; axioms propext/Classical.choice/Quot.sound; hand model of the recursive pruning functions (validated by correspondence only); translator for the "
-                      "seven generated items; parquet-rs statistics; harness generators. The unchanged tree violates the property (findings C05-F1, C05-F2: proposed fix "
-                      "C05-integer-domain.patch; C05-F3: NaN / signed zeros vs IEEE statistics, recorded).",
+                      "seven generated items; parquet-rs statistics; harness generators. Findings C05-F1 / C05-F2 (f64-rounded definite comparison, i64-as-i32 narrowing) were repaired in /repo by fix e356a0a (witnesses replayed from corpus/C05); "
+                      "C05-F3 (NaN / signed zeros vs IEEE statistics) is open and recorded.",
         "technique": "Lean 4 proof over translated tables + executable model + differential correspondence on real Parquet files",
     },
 }
